@@ -17,8 +17,8 @@ ASSUMPTIONS = [
 ]
 BOUNDS = {
     "quick": "2 proposals: higher priority with every None pattern, lower priority with a preference; clause (c): an empty third proposal at "
-             "each of the 3 priority positions; all values symbolic",
-    "thorough": "quick + lower-priority bounds symbolic too + 3 proposals (two bound-setters above one preference; budgeted)",
+             "each of the 3 priority positions; lower-priority proposal with symbolic bounds of its own; all values symbolic",
+    "thorough": "quick + 3 proposals (two bound-setters above one preference)",
 }
 OUTSIDE = "more than 3 proposals; IEEE rounding"
 BUDGET = {"quick": 400, "thorough": 1500}
@@ -113,10 +113,10 @@ def instances(tier):
         I("pref-1high-empty-mid", "make_pref", (1, False, "mid"), "+ empty proposal between the two", budget_s=200, validate_every=100),
         I("pref-1high-empty-bottom", "make_pref", (1, False, "bottom"), "+ empty proposal with the lowest priority", budget_s=200, validate_every=100),
     ]
+    out.append(I("pref-1high-lowbounds", "make_pref", (1, True), "lower-priority proposal also carries symbolic bounds", budget_s=900, validate_every=500))
     if tier == "quick":
         return out
     out += [
-        I("pref-1high-lowbounds", "make_pref", (1, True), "lower-priority proposal also carries symbolic bounds", budget_s=900, validate_every=500, dump_queries=40),
-        I("pref-2high", "make_pref", (2, False), "2 bound-setters above 1 preference (budgeted)", budget_s=1500, exhaustive=False, validate_every=2000),
+        I("pref-2high", "make_pref", (2, False), "2 bound-setters above 1 preference", budget_s=1500, validate_every=2000, dump_queries=40),
     ]
     return out
